@@ -331,6 +331,72 @@ def keyed_elements(tier, rng):
     return cases
 
 
+def object_addressed():
+    """List[K1] / Dict[str,K1] of keyed elements holding two / one element(s) with non-default
+    attributes; the list element is addressed by an element OBJECT: equal to the stored one
+    (found by value), only key-equal (other attribute differs: not found, ValueError like
+    list.index) or with an absent key; update_ with keywords / a new bare key, transform_ with a
+    function and with attribute transforms, without_, with_ (append / replace at index), explicit
+    _by_index=False; copy-on-write and in place.  The dict element is addressed by its key and
+    updated with a replacement element object plus keywords, transformed by attribute."""
+    cases = []
+    kw = [(1, V(1))]
+    for prep in (None, ("id",)):
+        table = keyed_table(prep, False)
+        _, heap0 = ic.resolve_table(table)
+        nd = len(heap0)
+        for pkey, pkw in ((7, [(1, V(5))]), (7, [(1, V(6))]), (7, []), (8, [(1, V(5))])):
+            for fam in ("list", "dict"):
+                hist, n = [], nd
+                hist.append((("construct", 1, S(7), [(1, V(5))]), None))
+                hist.append((("construct", 1, S(9), [(1, V(2))]), None))
+                e, e2 = n, n + 1
+                n += 2
+                if fam == "list":
+                    hist.append((("alloc", ("list", [("root", e2), ("root", e)])), None))
+                    aid = A_LK
+                else:
+                    hist.append((("alloc", ("dict", [(S(9), ("root", e2)), (S(7), ("root", e))])), None))
+                    aid = A_DK
+                hist.append((("construct", 2, None, [(aid, ("root", n))]), None))
+                n += 2
+                recv = n - 1
+                hist.append((("construct", 1, S(pkey), pkw), None))
+                p = ("root", n)
+                n += 1
+                if fam == "list":
+                    calls = [
+                        ("update_item", aid, H([p], kw=kw)),
+                        ("update_item", aid, H([p, S(11)])),
+                        ("transform_item", aid, H([p], fn=("id",), kwfn=[(1, ("addint", 1))])),
+                        ("transform_item", aid, H([p], fn=("id",))),
+                        ("without_item", aid, H([p])),
+                        ("with_item", aid, H([p])),
+                        ("with_item", aid, H([p], index=V(0))),
+                        ("with_item", aid, H([p], index=V(1), kw=kw)),
+                        ("update_item", aid, H([p], kw=kw, by_index=False)),
+                        ("without_item", aid, H([p], by_index=False)),
+                    ]
+                else:
+                    calls = [
+                        ("update_item", aid, H([S(7), p], kw=kw)),
+                        ("update_item", aid, H([S(7), p])),
+                        ("update_item", aid, H([S(7)], kw=[(2, S(11))])),
+                        ("transform_item", aid, H([S(7)], fn=("id",), kwfn=[(1, ("addint", 1))])),
+                        ("transform_item", aid, H([S(9)], fn=("id",))),
+                        ("with_item", aid, H([S(7), p])),
+                        ("with_item", aid, H([S(9), p], kw=kw)),
+                        ("without_item", aid, H([S(7)])),
+                    ]
+                for kind, a, h in calls:
+                    hist.append((("helper", recv, (kind, a), dict(h)), None))
+                    hist.append((("deepcopy", recv), None))
+                    hist.append((("helper", n + 1, (kind, a), dict(h, inplace=True)), None))
+                    n += 3
+                cases.append({"table": table, "ops": hist, "nd": nd})
+    return cases
+
+
 def spec_elements(rng, n_ops):
     """element helpers on List/Dict of (keyed) spec classes: keywords build/update the
     element, bare keys are promoted, dicts are constructor arguments (conforming arguments)"""
